@@ -3,6 +3,7 @@ package main
 import (
 	"errors"
 	"fmt"
+	"os"
 	"net"
 	"regexp"
 	"strconv"
@@ -314,6 +315,7 @@ type hit struct{ key, what string }
 var worldSeq int64
 var lateTotal int
 var spinTotal int
+var spinsBefore, _ = strconv.Atoi(os.Getenv("C16_SPINS"))
 
 func newWorld(max int, mode string) *world {
 	w := &world{mode: mode, max: max, rt: longTimeout, wt: longTimeout, h: &handler{byID: map[string]*cstate{}}}
@@ -524,8 +526,12 @@ func (w *world) quiesce() {
 	if w.spin {
 		return
 	}
+	// the first loop that never parks costs the full timeout; once such findings exist (in this process or, via
+	// C16_SPINS, in earlier workers of this run) the verdict is decided and later scripts are cut short
 	to := settleTimeout
-	if spinTotal > 0 {
+	if n := spinTotal + spinsBefore; n >= 3 {
+		to = 400 * time.Millisecond
+	} else if n > 0 {
 		to = 2 * time.Second
 	}
 	err := settleWithin(to)
